@@ -444,7 +444,7 @@ fn gen_union(s: &mut Src, decls: &[Decl], k: usize) -> UnionD {
             let c = avail.remove(s.below(avail.len()));
             cases.push(c);
         }
-        if cases.is_empty() && !is_default && !omit_case {
+        if cases.is_empty() && !(is_default && int_switch) && !omit_case {
             // no label left for a non-default variant: stop adding variants
             break;
         }
